@@ -184,6 +184,8 @@ def eval_cfg(expr):
         return m.group(1) in FEATURES
     if expr in ('test', 'kani', 'verus_keep_ghost'):
         return False
+    if expr == 'debug_assertions':
+        return True      # the overflow-/assertion-checked build is the stricter one
     m = re.fullmatch(r'target_endian\s*=\s*"(\w+)"', expr)
     if m:
         return m.group(1) == 'little'
@@ -612,12 +614,16 @@ class Item:
 
     def splice(self, name, ret=None, requires=None, ensures=None, loops=None, before=None, after=None,
                decreases=None, nth=0, canary=None, owners=None, opens=None, attrs=None, recommends=None,
-               no_unwind=False):
+               no_unwind=False, split=0):
         """insert a contract on fn `name`.
         ensures/requires: list of clause strings, each optionally prefixed by [Cxx:tag] tags.
         loops: {ordinal: 'invariant ..., decreases ...'} (textual order of loop keywords in the body)
         before/after: [(verbatim statement, ghost text)]   (ghost text may only be proof{}/assert/let ghost)
         canary: True -> also emit a twin `name_verifcanary` with `ensures false` that must fail (vacuity guard)
+        split: k > 1 -> R-SPLIT: the ensures clauses are partitioned over k verbatim copies `name_verifpart<i>` of the
+               function (each verified on its own: same body, same requires/loop specs/hints, a subset of the postconditions);
+               the original keeps its body text but is marked external_body /*R-SPLIT*/ and carries the union, which is
+               sound because (body |= A) and (body |= B) give (body |= A && B).  For functions whose single VC is too large.
         """
         assert self.base is not None
         t = self.text
@@ -702,6 +708,25 @@ class Item:
             twin_src = strip_sentinels(t[ks:k] + chead + '\n' + cspec + strip_sentinels(body))
             twin = ins('\n' + re.sub(r'^\s*pub(\([a-z]+\))?\s+', '', twin_src) + '\n')
             self.canaries.append(name + '_verifcanary')
+        if split and split > 1 and has_body and ensures:
+            groups = [ensures[i::split] for i in range(split)]
+            parts = ''
+            for gi, g in enumerate(groups):
+                if not g:
+                    continue
+                gspec = ''
+                if requires:
+                    gspec += clauses('requires', requires)
+                gspec += clauses('ensures', g)
+                if decreases:
+                    gspec += '  decreases ' + decreases + ',\n'
+                phead = re.sub(r'\bfn\s+%s\b' % re.escape(name), f'fn {name}_verifpart{gi}', header.rstrip(), 1)
+                psrc = strip_sentinels(t[ks:k] + phead + '\n' + gspec + strip_sentinels(body))
+                parts += '\n' + re.sub(r'^\s*pub(\([a-z]+\))?\s+', '', psrc) + '\n'
+            twin += ins(parts)
+            pre_attr += ins('#[verifier::external_body] /*R-SPLIT*/\n')
+            self.ctx.count('R-SPLIT')
+            self.ctx.custom.append(('R-SPLIT', self._where(name), f'{len(ensures)} postconditions', f'{split} verbatim copies'))
         self.text = t[:ks] + pre_attr + new_fn + twin + t[body_end + 1:]
         if owners is not None:
             self.owners[name] = list(owners)
@@ -883,7 +908,11 @@ class Skeleton:
                     src = None
                 start = len(lines) + 1
                 put(text)
+                allfns = [x[2] for x in fn_spans(text)]
                 for (a, b, fn, hasbody) in fn_spans(text):
+                    if not hasbody and (fn + '_verifpart0') in allfns:
+                        continue     # R-SPLIT original: its obligations are carried by the verbatim copies
+                    fn = re.sub(r'_verifpart\d+$', '', fn)
                     fnmap.append({'start': start + a, 'end': start + b, 'label': f'{path}::{lab}::{fn}' if lab != fn else f'{path}::{fn}',
                                   'fn': fn, 'owners': own.get(fn, own.get('*', [])), 'src': src, 'body': hasbody,
                                   'canary': fn.endswith('_verifcanary')})
@@ -916,6 +945,6 @@ def fn_spans(text):
         except (Lost, IndexError):
             continue
         pre = text[max(0, k - 200):k]
-        ext = bool(re.search(r'#\[verifier::external_body\]\s*((pub(\([a-z]+\))?\s+)?(const\s+)?(unsafe\s+)?)$', pre))
+        ext = bool(re.search(r'#\[verifier::external_body\]\s*(/\*R-SPLIT\*/)?\s*((pub(\([a-z]+\))?\s+)?(const\s+)?(unsafe\s+)?)$', pre))
         out.append((text.count('\n', 0, k), text.count('\n', 0, e), m.group(1), text[b] == '{' and not ext))
     return out
